@@ -31,6 +31,8 @@ pub struct Weights {
     pub hostile: u32,
     /// traffic of / confusion with the second group (only useful with `SetupOpts::side_percent`)
     pub side: u32,
+    /// further solo groups, half of them with a relay list SQLite cannot store
+    pub solo_group: u32,
 }
 
 impl Default for Weights {
@@ -59,6 +61,7 @@ impl Default for Weights {
             replay: 0,
             hostile: 0,
             side: 0,
+            solo_group: 0,
         }
     }
 }
@@ -215,6 +218,7 @@ pub fn op_strategy(w: &Weights) -> BoxedStrategy<Op> {
         ];
         v.push((w.side, so.prop_map(Op::Side).boxed()));
     }
+    v.push((w.solo_group, (any::<u16>(), any::<bool>()).prop_map(|(m, collide)| Op::SoloGroup { m, collide }).boxed()));
     let v: Vec<(u32, BoxedStrategy<Op>)> = v.into_iter().filter(|(w, _)| *w > 0).collect();
     proptest::strategy::Union::new_weighted(v).boxed()
 }
